@@ -911,11 +911,21 @@ func (h *H) doObs(toks []string) {
 		if cs := get("for"); len(cs) > 0 {
 			o = o.For(cs...)
 		}
+		// "method calls can be chained, which has the same effect as calling with multiple arguments":
+		// on odd lines a list of two or more is handed over in two calls
+		chain := func(cs []ecs.Comp, f func(...ecs.Comp) *ecs.Observer) {
+			if len(cs) > 1 && h.lineNo%2 == 1 {
+				f(cs[:1]...)
+				f(cs[1:]...)
+				return
+			}
+			f(cs...)
+		}
 		if cs := get("with"); len(cs) > 0 {
-			o = o.With(cs...)
+			chain(cs, o.With)
 		}
 		if cs := get("without"); len(cs) > 0 {
-			o = o.Without(cs...)
+			chain(cs, o.Without)
 		}
 		if hasFlag(toks[3:], "excl") {
 			o = o.Exclusive()
